@@ -106,6 +106,8 @@ class CallMixin:
             if attr in LIST_METHODS:
                 return self.st.register(BoundMethod(BuiltinFn("list." + attr), obj))
             return self._attr_error(node, default)
+        if nm == "bytes" and attr in ("hex", "decode"):
+            return self.st.register(BoundMethod(BuiltinFn("bytes." + attr), obj))
         if nm in ("dict",):
             if attr in DICT_METHODS:
                 return self.st.register(BoundMethod(BuiltinFn("dict." + attr), obj))
@@ -120,6 +122,18 @@ class CallMixin:
             # extern object classes (Lock, Future, Thread, Event, proto ...)
             if attr in EXTERN_FIELDS.get(nm, ()):
                 return self.st.get_field(Val.r(obj), attr)
+            if nm == "proto" and attr not in ("send", "poll", "WhichOneof", "Name", "Value"):
+                v = self.st.get_field(Val.r(obj), attr)       # protobuf message field (typed record, trusted)
+                if attr in ("ID", "path", "current_hash", "name", "expression", "namespace", "help", "unit", "key"):
+                    self.ctx.assume(Val.is_VStr(v))
+                elif attr in ("line_number", "ts_nanos", "type", "response_type"):
+                    self.ctx.assume(Val.is_VInt(v))
+                elif attr in ("args",):
+                    self.ctx.assume(z3.And(Val.is_VRef(v), z3.Select(self.st.typeof, Val.r(v)) == self.table.id("proto")))
+                elif attr in ("watches", "metrics", "response", "labelExpressions"):
+                    self.ctx.assume(z3.And(Val.is_VRef(v), z3.Select(self.st.typeof, Val.r(v)) == self.table.id("list"),
+                                           Val.r(v) > 0, Val.r(v) < self.st.next_id, self.llen(Val.r(v)) >= 0))
+                return v
             if nm in EXTERN_OBJECT_CLASSES:
                 return self.st.register(BoundMethod(BuiltinFn("%s.%s" % (nm, attr)), obj))
             return self._attr_error(node, default)
@@ -303,7 +317,10 @@ class CallMixin:
                 v = self.eval(a.value)
                 n = self.ctx.value_of(self.llen(Val.r(v)))
                 if n is None:
-                    raise Unsupported("*args of unknown length")
+                    # unknown number of extra arguments: handed on as one (marked) tuple
+                    self.st.ghost.setdefault("starred_terms", []).append(v)
+                    args.append(v)
+                    continue
                 args.extend(self.list_get(Val.r(v), z3.IntVal(i)) for i in range(n))
             else:
                 args.append(self.eval(a))
